@@ -463,6 +463,61 @@ func c18Shapes(chk *fw.Check) int {
 			}
 		}
 	}
+	// what an entry's extensions say is content, never an instruction to the store: every CRLReason (also removeFromCRL
+	// and certificateHold), alone and written over an earlier entry of the same pair, invalidityDate, holdInstructionCode
+	{
+		iss := rdn("plain")
+		tm := time.Date(2029, 1, 1, 0, 0, 0, 0, time.UTC)
+		shapes := map[string][]pkix.Extension{
+			"reason+invalidityDate": {world.ReasonExt(1), world.InvalidityDateExt(tm.Add(-time.Hour))},
+			"holdInstructionCode":   {world.ReasonExt(6), {Id: asn1.ObjectIdentifier{2, 5, 29, 23}, Value: []byte{0x06, 0x07, 0x2a, 0x86, 0x48, 0xce, 0x38, 0x02, 0x01}}},
+		}
+		for code := 0; code <= 10; code++ {
+			shapes[fmt.Sprintf("reasonCode-%d", code)] = []pkix.Extension{world.ReasonExt(code)}
+		}
+		for en, ex := range shapes {
+			for _, over := range []bool{false, true} {
+				id++
+				ser := big.NewInt(int64(4000 + id))
+				rc := &pkix.RevokedCertificate{SerialNumber: ser, RevocationTime: tm, Extensions: ex}
+				ms, _ := mf.CreateStore(fmt.Sprint("s", id), false)
+				ls, err := lf.CreateStore(fmt.Sprint("s", id), false)
+				if err != nil {
+					panic(err)
+				}
+				for bn, st := range map[string]crlstore.CRLStore{"memory": ms, "disk": ls} {
+					n++
+					shape := fmt.Sprintf("ext=%s written-over-a-plain-entry-of-the-pair=%v", en, over)
+					func() {
+						defer func() {
+							if r := recover(); r != nil {
+								chk.Violation("C18|shape-panic|"+bn, fmt.Sprintf("%s backend panics on shape %s: %v", bn, shape, r), shape)
+							}
+						}()
+						if over {
+							if err := st.InsertRevokedCert(&crlreader.CRLEntry{Issuer: &iss, RevokedCertificate: &pkix.RevokedCertificate{SerialNumber: ser, RevocationTime: tm.Add(-24 * time.Hour)}}); err != nil {
+								chk.Violation("C18|shape-insert-error|ext=none", fmt.Sprintf("%s backend cannot store a plain entry: %v", bn, err), shape)
+								return
+							}
+						}
+						if err := st.InsertRevokedCert(&crlreader.CRLEntry{Issuer: &iss, RevokedCertificate: rc}); err != nil {
+							chk.Violation("C18|shape-insert-error|ext="+en, fmt.Sprintf("%s backend cannot store shape %s: %v", bn, shape, err), shape)
+							return
+						}
+						got, err := st.GetCertRevocationStatus(&iss, ser)
+						if err != nil || !got.Revoked {
+							chk.Violation("C18|shape-lost|ext="+en, fmt.Sprintf("%s backend: inserted entry of shape %s is not found again (err=%v)", bn, shape, err), shape)
+							return
+						}
+						if renderRC(got.CRLRevokedCertEntry) != renderRC(rc) {
+							chk.Violation("C18|shape-changed|ext="+en, fmt.Sprintf("%s backend returns %s for stored %s (shape %s)", bn, renderRC(got.CRLRevokedCertEntry), renderRC(rc), shape), shape)
+						}
+					}()
+				}
+				ls.Close()
+			}
+		}
+	}
 	// metadata / locations shapes
 	metaShapes := map[string]*crlreader.CRLMetaInfo{
 		"no-nextupdate": {Issuer: rdn("m"), ThisUpdate: times["utc"]},
